@@ -22,7 +22,7 @@ META = {
                     "C02 contract on bin1d_vec stays installed underneath"],
     "deciding": ["lookup:get_masked", "lookup:get_index_of", "agree:filter_spatial", "agree:spatial_counts", "invariant:region"],
 }
-META["added"] = 'Added while building / after seeding rounds: union-of-readings model for midpoint-derived origins; odd spacings (0.04, 0.07, 0.125, 0.15, 0.0125, 0.6, 2, 0.03) and anchors; structured degenerate shapes (single row / column with unequal anchors); model-decided batch lookups; catalogs already bound to another region before filter_spatial; masked_region; get_bbox.'
+META["added"] = 'Added while building / after seeding rounds: union-of-readings model for midpoint-derived origins; odd spacings (0.04, 0.07, 0.125, 0.15, 0.0125, 0.6, 2, 0.03) and anchors; structured degenerate shapes (single row / column with unequal anchors); model-decided batch lookups; catalogs already bound to another region before filter_spatial; masked_region; get_bbox. batch-composition independence of get_masked.'
 MANIFEST = {
     "technique": "invariant on live CartesianGrid2D objects after construction + boundary recorder on seven lookup entry points compared with an exact-comparison lattice reference model; cross-entry agreement checks; bin1d_vec contract active underneath",
     "level_text": "For each generated or shipped region the object invariant (mask/index-map bijection, edge arrays) is evaluated once and ~3000 boundary-adjacent probe points are pushed through masking, index lookup (batch and point by point), spatial filtering and per-cell counting; every answer is compared with the unique cell found by exact comparison against the lattice edges (either neighbour accepted only inside the documented band), and the entry points must agree with each other.",
@@ -198,6 +198,17 @@ def check_region(ctx, reg, model, rc, tags, rng, origins=None, n_single=150):
                     observed={"points": numpy.column_stack([lon[j], lat[j]]), "masked": masked[j]}, expected={"cell(-1=outside)": primary[j]},
                     tags=dict(tags, api="get_masked", clause="masked", reported_inside=bool((~masked[k]).all()),
                               beyond_open_side_of_single_row_or_column=bool(single_axis and beyond and (~masked[k]).all())))
+    # --- batch-composition independence: the verdict on a point must not depend on which other points are asked in the same call;
+    #     here: only the probes inside the CLOSED bounding box (so some lie exactly on its exclusive east / north edge, none beyond it)
+    box = numpy.nonzero((lon >= model.ex[0]) & (lon <= model.ex[-1]) & (lat >= model.ey[0]) & (lat <= model.ey[-1]))[0]
+    if 0 < box.size < lon.size:
+        ok_b, m_b, tb_b = ctx.call(reg.get_masked, lon[box], lat[box])
+        ctx.mon("lookup:get_masked", 1)
+        if not ok_b or not numpy.array_equal(numpy.asarray(m_b, dtype=bool), masked[box]):
+            d = numpy.nonzero(numpy.asarray(m_b, dtype=bool) != masked[box])[0][:5] if ok_b else []
+            ctx.violate("get_masked answers differently for the same points when asked in another batch", rc,
+                        observed=repr(m_b)[:120] if not ok_b else {"points": numpy.column_stack([lon[box][d], lat[box][d]]), "masked_in_sub_batch": numpy.asarray(m_b)[d]},
+                        expected={"masked_in_full_batch": masked[box][d] if ok_b else None}, tags=dict(tags, api="get_masked", clause="batch-dependence"))
     # --- get_index_of, batch on points the library calls inside
     ins = numpy.nonzero(~masked)[0]
     idx_obs = -numpy.ones(lon.size, dtype=int)
